@@ -21,6 +21,9 @@ TARGETS = {
     "pass": ("nsl/Pass.py", ["PassFlags", "Pass", "MakePassFromVisitor"]),
     "visitor": ("nsl/Visitor.py", ["Node", "Visitor", "DefaultVisitor"]),
     "linker": ("nsl/LinearIR.py", ["ModuleLoader", "FilesystemModuleLoader", "MemoryModuleLoader", "Program", "Linker"]),
+    "wasm_writer": ("nsl/WebAssembly.py", ["ValueType", "HeapType", "StructType", "FunctionType", "TypeSection", "FunctionSection", "Table", "TableSection", "Memory",
+                                           "MemorySection", "Export", "ExportSection", "Local", "Instruction", "Code", "CodeSection", "Module"]),
+    "wasm_generator": ("nsl/passes/GenerateWasm.py", ["_MakeStructForArray", "_ConvertType", "_ConvertFunctionType", "_GenerateConstant", "GenerateWasmVisitor", "GetPass"]),
     # methods are addressed as Class.method
     "lower_member": ("nsl/passes/LowerToIR.py", ["LowerToIRVisitor.v_MemberAccessExpression"]),
     "lower_index": ("nsl/passes/LowerToIR.py", ["LowerToIRVisitor.v_ArrayExpression"]),
